@@ -131,7 +131,13 @@ func verifC17Request(args []vsx) vsx {
 	}
 	verifC17Start()
 	version := args[1].i
+	if version != 1 && version != 2 {
+		return vL(vS("bad-case"))
+	}
 	raw := verifC17RawRequest(args[2])
+	if !strings.HasPrefix(raw.Uri, "/") {
+		return vL(vS("bad-case")) // origin-form URIs only
+	}
 	transport := verifC17H1
 	if version == 2 {
 		transport = verifC17H2
